@@ -714,6 +714,45 @@ example : HostlessBase exBaseFoo ∧ exBaseFoo.user = [] ∧ exBaseFoo.netlocSep
   refine ⟨⟨rfl, ⟨_, _, rfl⟩, by decide, by decide⟩, rfl, rfl, by decide⟩
 example : (URL.navigateWith true exBaseFoo (URL.ofRelRef exRef)).toText = "foo://g/?y".toList := by decide
 
+/-! ### the code under test (round 3c): /repo has the repair (35bb52f), so the FULL statement is the one that applies -/
+
+/-- The source under test HAS the repair of known finding C07-empty-query: the flag is regenerated on every run by
+    evaluating `URL.navigate` of the tree under test on the finding's probes (`C07.Gen.navHonoursEmptyQuery`), and
+    this `rfl` stops checking - naming this theorem and the three below - as soon as an edit loses the repair.  The
+    unrepaired version of the model (`URL.navigateWith false`) is kept as a REGRESSION DETECTOR only: after such an
+    edit model and code still agree (the correspondence stays in step) and the oracle reports the `?` input. -/
+theorem navigate_is_repaired : C07.Gen.navHonoursEmptyQuery = true := rfl
+
+/-- **the full statement about `URL.navigate` of the code under test** (no `_partial`, no restriction on the
+    reference's query marker) -/
+theorem navigate_eq_rfc (b : URL) (r : Ref) (hb : AbsBase b) (hr : RelRef r)
+    (hdf : r.path ≠ [] ∨ DotFree b.parts) (hcq : CanonQ r.query) :
+    (b.navigate (URL.ofRelRef r)).toRef.canon = (resolve b.toRef r).canon :=
+  navigate_eq_rfc_of_repair navigate_is_repaired b r hb hr hdf hcq
+
+/-- **chained navigation of the code under test = resolving step by step**, any references without scheme/authority -/
+theorem chained_eq_rfc (b : URL) (rs : List Ref) (hb : AbsBase b) (hd : DotFree b.parts)
+    (hrs : ∀ r ∈ rs, RelRef r ∧ CanonQ r.query) :
+    (b.navigateAll (rs.map URL.ofRelRef)).toRef.canon = (resolveAll b.toRef rs).canon := by
+  have e : ∀ ds : List URL, b.navigateAll ds = URL.navigateAllWith true b ds := by
+    intro ds
+    unfold URL.navigateAll URL.navigateAllWith URL.navigate
+    rw [navigate_is_repaired]
+  rw [e]
+  exact chained_eq_rfc_repaired b rs hb hd hrs
+
+/-- ... and for a reference given as a text -/
+theorem navigate_text_eq_rfc (b : URL) (t : Str) (hb : AbsBase b) (ht : RelText t)
+    (hdf : (rfcParse t).path ≠ [] ∨ DotFree b.parts) (hcq : CanonQ (rfcParse t).query) :
+    (b.navigate (URL.ofText t)).toRef.canon = (resolve b.toRef (rfcParse t)).canon := by
+  unfold URL.navigate
+  rw [navigate_is_repaired]
+  exact navigate_text_eq_rfc_repaired b t hb ht hdf hcq
+
+example : (exBaseMulti.navigate (URL.ofText "?".toList)).toText = "http://a/b/c".toList := by decide
+example : (exBaseMulti.navigateAll ([exRefMulti, ⟨none, none, [], some [], some "s".toList⟩].map URL.ofRelRef)).toText
+    = "http://a/g#s".toList := by decide
+
 /-! ### navigate's glue: which component comes from where (any base, any non-replacing reference, either version) -/
 
 /-- the fragment is never inherited: the result carries the reference's fragment (none if it has none) -/
